@@ -563,12 +563,64 @@ def sweep_chunks(tier, seed):
     return list(range(len(corpus_files(small=True))))
 
 
+def attribute_names():
+    """Every name a section object of the object model answers to (class
+    attributes, properties, methods, private slots) that can stand as an
+    option key."""
+    ns = sut.load()
+    names = set(HOSTILE_KEYS)
+
+    for obj in vars(ns.dom).values():
+        if isinstance(obj, type):
+            for n in dir(obj):
+                names.add(n)
+                names.add(n.strip('_'))
+
+    return sorted(n for n in names
+                  if spec.KEY_RE.fullmatch(n.encode('ascii', 'replace')))
+
+
+def run_key_sweep(index, st, data, recs):
+    """Every such name as an extra option on every header of one file."""
+    evals = nontrivial = 0
+
+    for rec in recs:
+        hstart, cstart, _cend = rec['span']
+        header = data[hstart:cstart]
+        body = header.rstrip(b'\r\n')
+        tail = header[len(body):]
+        sep = b' ' if body.endswith(b':') else b', '
+
+        for name in attribute_names():
+            for value in (b'x', b'1'):
+                blob = (data[:hstart] + body + sep + name.encode('ascii') +
+                        b'=' + value + tail + data[cstart:])
+                case = {'data': blob}
+
+                try:
+                    with sut.watchdog(WATCHDOG_S):
+                        _label, nrecs = judge(blob, st, case)
+                except sut.WatchdogTimeout:
+                    st.violation('no-termination-within-%ds' % WATCHDOG_S,
+                                 '%s on %s' % (name, rec['section']), case)
+                    nrecs = 0
+
+                evals += 1
+                nontrivial += nrecs >= 1
+
+    return evals, nontrivial
+
+
 def run_sweep_chunk(index, st):
     data = corpus_files(small=True)[index]
     recs, _err = spec.ref_parse(data)
     evals = 0
     nontrivial = 0
     sample = None
+
+    if index % 8 == 0:
+        # (four files are enough: the names matter, not the files)
+        evals, nontrivial = run_key_sweep(index, st, data, recs)
 
     for rec in recs:
         hstart, cstart, _cend = rec['span']
@@ -742,7 +794,9 @@ def checks():
                  'and the 25 small corpus files replaced by every entry of '
                  'the hostile-value dictionary (numbers around every limit, '
                  'codec names of every kind, almost-numbers that make a '
-                 'backtracking pattern explode); whole contract, 60 s '
+                 'backtracking pattern explode); on four of the files also '
+                 'every attribute / method name of the object-model classes '
+                 'as an extra option key on every header; whole contract, 60 s '
                  'watchdog; non-trivial = the reader produced >= 1 record',
             bound={'quick': 'all (file, header, option, hostile value) '
                             'combinations', 'thorough': 'same'}),
